@@ -23,7 +23,8 @@ pub struct Case {
     pub syntax: &'static str,
     pub position: &'static str,
     pub lang: Lang,
-    /// a second, plain one-line `///` doc on the same element: 0 none, 1 before, 2 after the enumerated one
+    /// a second one-line `///` doc on the same element: 0 none, 1 plain text before, 2 plain text after the enumerated
+    /// one, 3 an empty `///` line after it (the doc ends in an empty line), 4 an empty `///` line before it
     pub companion: usize,
     /// index into `DECORS`
     pub decor: usize,
@@ -37,7 +38,7 @@ pub fn gen(ch: &mut Chooser, max_len: usize) -> Case {
     let position = *ch.pick("position", &POSITIONS);
     let lang = *ch.pick("lang", &ALL_LANGS);
     // quick tier: the companion dimension for words of up to two tokens (the three-token words run without it)
-    let companion = if len <= 2 || max_len >= 4 { ch.choose("companion_line_doc", 3) } else { 0 };
+    let companion = if len <= 2 || max_len >= 4 { ch.choose("companion_line_doc", 5) } else { 0 };
     // the decorated programs for the shortest words (one token in quick, up to two in thorough)
     let decor = if len == 1 || (max_len >= 4 && len <= 2) { ch.choose("item_decorators", DECORS.len()) } else { 0 };
     Case { word, spaced, syntax, position, lang, companion, decor }
@@ -176,6 +177,8 @@ pub fn check_case(c: &Case, choices: &[u32], acc: &mut Acc) {
         match c.companion {
             1 => vec![plain, doc],
             2 => vec![doc, plain],
+            3 => vec![doc, Doc::Line(String::new())],
+            4 => vec![Doc::Line(String::new()), doc],
             _ => vec![doc],
         },
         c.decor,
@@ -301,7 +304,7 @@ pub fn run(args: &[String]) -> i32 {
         report::threads(),
         u64::MAX,
     );
-    merge(&mut rep, "doc_words", accs, &stats, json!({"alphabet": TOKEN_NAMES, "max_word_length": max_len, "separators": ["none", "space"], "companion_doc": ["none", "one-line /// before", "one-line /// after"], "rust_syntaxes": SYNTAXES, "positions": POSITIONS, "item_decorators": DECORS, "item_decorators_for_words_up_to": if max_len >= 4 { 2 } else { 1 }, "languages": 6}));
+    merge(&mut rep, "doc_words", accs, &stats, json!({"alphabet": TOKEN_NAMES, "max_word_length": max_len, "separators": ["none", "space"], "companion_doc": ["none", "one-line /// before", "one-line /// after", "empty /// line after", "empty /// line before"], "rust_syntaxes": SYNTAXES, "positions": POSITIONS, "item_decorators": DECORS, "item_decorators_for_words_up_to": if max_len >= 4 { 2 } else { 1 }, "languages": 6}));
     require_nonvacuous(&mut rep);
     rep.cov("rule", json!("every word up to the stated length over the doc-token alphabet, joined with or without spaces, wrapped in sentinels DOCB7/DOCE7, written in each Rust doc syntax that can express it, attached to each documentable position, for each language; oracle: the code token stream (comments and docstrings removed) of the output equals that of the same program without docs, tokenizing never ends inside an open comment/string, and both sentinels occur inside comment tokens. non-trivial = the word contains a token other than plain text."));
     rep.assume("the per-language tokenizers of mc/src/extract/lex.rs decide what is a comment / docstring");
